@@ -18,7 +18,10 @@ CLASSES = {
     'Field': dict(module='field', bases=[], attrs=FIELD_ATTRS),
     'Move': dict(module='structural_fields', bases=['Field'], attrs={}),
     'Int': dict(module='field', bases=['Field'], attrs={
-        'byte_count': 'int', 'endianness': 'dyn', 'is_signed': 'bool', 'struct_obj': 'struct', 'base': 'int'}),
+        'byte_count': 'int', 'endianness': 'dyn', 'is_signed': 'bool', 'struct_obj': 'struct', 'base': 'int',
+        'pack': 'meth', 'unpack': 'meth'},
+        methsel={'pack': ['field:Int._pack_fixed_and_primitive_size', 'field:Int._pack_fixed_size'],
+                 'unpack': ['field:Int._unpack_fixed_and_primitive_size', 'field:Int._unpack_fixed_size']}),
     'Data': dict(module='field', bases=['Field'], attrs={
         'byte_count': 'dyn', 'until_marker': 'dyn', 'include_delimiter': 'bool',
         'delimiter_to_be_included': 'bytes', 'consume_delimiter': 'bool',
